@@ -62,6 +62,7 @@ class Check:
         self.t0 = time.time()
         self.violations = []
         self.known_hits = []
+        self.unrepro = []
         self.notes = []
         self.cov = {}
         self.assumptions = []
@@ -204,6 +205,12 @@ class Check:
             print('  ' + signature + ': ' + str(detail)[:1500], flush=True)
         self.violations.append((signature, path))
 
+    def unreproduced(self, msg):
+        """A mismatch that did not show up again when re-executed: never a verdict by itself.  If nothing else is
+        reported the run ends inconclusive (exit 2); reproduced violations of the same run are still reported."""
+        print('NOTE property=%s not reproduced: %s' % (self.pid, msg[:600]), flush=True)
+        self.unrepro.append(msg[:600])
+
     def inconclusive(self, msg):
         print('INCONCLUSIVE property=%s: %s' % (self.pid, msg), flush=True)
         self.write_evidence(extra={'inconclusive': msg[:2000]})
@@ -232,6 +239,10 @@ class Check:
         os.replace(tmp, os.path.join(EVID, self.pid + '.json'))
 
     def finish(self):
+        if self.unrepro and not self.violations:
+            self.inconclusive('%d mismatch(es) seen once but not reproduced: %s' % (len(self.unrepro), self.unrepro[0]))
+        if self.unrepro:
+            self.cov['unreproduced_mismatches'] = self.unrepro[:5]
         self.write_evidence()
         if self.violations:
             self.log('FAILED: %d violation(s)' % len(self.violations))
